@@ -502,7 +502,7 @@ struct WorkerCounters {
                 Result rc;
                 h.execute( c, rc );
                 return same_rule_unknown( o, rc, o.property, rule ) != nullptr;
-            }, 3000, o.thorough ? 60.0 : 20.0, trials );
+            }, 2000, o.thorough ? 30.0 : 8.0, trials );
             Result rm;
             rm.verbose = true;
             h.execute( minimal, rm );
